@@ -13,6 +13,7 @@ import Pxv.Driver.Scope
 import Pxv.Driver.Life
 import Pxv.Driver.Rules
 import Pxv.Driver.Errors
+import Pxv.Driver.Router
 open Pxv.Driver
 
 def main (args : List String) : IO UInt32 := do
@@ -32,4 +33,5 @@ def main (args : List String) : IO UInt32 := do
   | ["life"] => serve Pxv.Life.handle; return 0
   | ["rules"] => serve Pxv.Rules.handle; return 0
   | ["errors"] => serve Pxv.Err.handle; return 0
+  | ["router"] => serve Pxv.Router.handle; return 0
   | _ => IO.eprintln "usage: pxmodel <model>"; return 2
